@@ -82,6 +82,14 @@ struct Ctx
         return s;
     }
     OLocation locate(D3 const& p) const { return env.oracle->locate(p, eps_amb); }
+    //! The point p (start of a search) lies, within 2 tol, on surfaces of >= 2 universe levels
+    bool coincident_start(D3 const& p, D3 const& d) const
+    {
+        OLocation ahead = locate(axpy3(p, eps_probe, d));
+        if (ahead.status != OLocation::ok)
+            return false;
+        return env.oracle->levels_touching_surface(p, ahead, 2 * tol_len) >= 2;
+    }
 };
 
 //---------------------------------------------------------------------------//
@@ -186,7 +194,9 @@ static bool check_step(Ctx& c, D3 const& p, D3 const& d, double dist, bool bound
         c.R.count("oracle_segment");
         if (chain_of(loc) != here)
         {
-            c.R.violation("nav:boundary-skipped", cid,
+            c.R.violation(c.coincident_start(p, d) ? "nav:boundary-skipped:start-on-surface-shared-between-levels"
+                                                   : "nav:boundary-skipped",
+                          cid,
                           fmt("%s: geometry %s from %s along %s the navigator reports a free step "
                               "of %.17g in %s, but at distance %.17g the oracle locates %s (%s)",
                               when, c.env.name.c_str(), d3s(p).c_str(), d3s(d).c_str(), dist,
@@ -205,7 +215,10 @@ static bool check_step(Ctx& c, D3 const& p, D3 const& d, double dist, bool bound
             c.R.count("oracle_crossing");
             if (chain_of(a) == chain_of(b))
             {
-                c.R.violation("nav:boundary-invented", cid,
+                c.R.violation(c.coincident_start(p, d)
+                                  ? "nav:boundary-invented:start-on-surface-shared-between-levels"
+                                  : "nav:boundary-invented",
+                              cid,
                               fmt("%s: geometry %s from %s along %s the navigator reports a "
                                   "boundary at %.17g but the oracle finds the same volume %s on "
                                   "both sides",
@@ -894,13 +907,17 @@ static void part_ops(vf::Run& R)
                                       "universes", "rect-array", "nested-rect-arrays",
                                       "inputbuilder-hierarchy", "inputbuilder-universes"};
     auto zoo = vf::zoo_entries(true);
+    // Direction alphabet for set_dir: near-axis and near-diagonal directions, tilted by a few
+    // 1e-2 so that none is EXACTLY tangent to an axis-aligned (or 30/90-degree rotated) surface
+    // the track may be sitting on: motion exactly within a surface has no defined "next volume"
+    // and is not part of the explored space (near-tangent directions are).
     std::vector<D3> setdirs;
     for (int a = 0; a < 3; ++a)
         for (int s : {-1, 1})
         {
-            D3 d = {0, 0, 0};
+            D3 d = {0.0137 * s, -0.0211, 0.0173 * s};
             d[a] = s;
-            setdirs.push_back(d);
+            setdirs.push_back(unit3(d));
         }
     for (int i : {-1, 1})
         for (int j : {-1, 1})
@@ -912,7 +929,7 @@ static void part_ops(vf::Run& R)
         setdirs.resize(10);
     }
     auto start_dirs = irrational_dirs(R.thorough() ? 3 : 1);
-    start_dirs.push_back({1, 0, 0});
+    start_dirs.push_back(unit3({1, 0.0119, -0.0157}));
     start_dirs.push_back(unit3({0.5, 0.8660254037844386, 0}));
     int const nstart = R.thorough() ? 3 : 2;
     uint64_t outer = 0;
